@@ -121,7 +121,7 @@ fn id_patterns(n: usize, k: u64) -> Vec<Vec<u64>> {
         .collect()
 }
 
-pub fn child(root: &str, bs: &str, tier: &str) -> i32 {
+pub fn child(root: &str, bs: &str, tier: &str, slice: usize, slices: usize) -> i32 {
     let root = PathBuf::from(root);
     let sbs: Option<usize> = bs.parse().ok();
     let cfg = SysConfig { streaming_batch_size: sbs, ..Default::default() };
@@ -140,7 +140,10 @@ pub fn child(root: &str, bs: &str, tier: &str) -> i32 {
     for n in 1..=nmax {
         let limits: Vec<Option<u32>> = std::iter::once(None).chain((0..=n as u32 + 1).map(Some)).collect();
         let offsets: Vec<Option<u32>> = vec![None, Some(0), Some(1), Some(2), Some(n as u32)];
-        for ids in id_patterns(n, n as u64) {
+        for (pi, ids) in id_patterns(n, n as u64).into_iter().enumerate() {
+            if pi % slices != slice {
+                continue;
+            }
             for split in splits(n) {
                 let bsq = batches(&sch, &ids, &split);
                 for w in writers {
@@ -198,18 +201,20 @@ pub fn child(root: &str, bs: &str, tier: &str) -> i32 {
 /// runs one child per streaming batch size; returns (failing cases, cases, nontrivial, distinct outcomes) or a machinery error
 pub fn run(scratch: &Scratch, tier: &str) -> Result<(Vec<crate::golden::Failing>, u64, u64, usize, Vec<String>), String> {
     let sizes: Vec<&str> = if tier == "quick" { vec!["none", "0", "2"] } else { vec!["none", "0", "1", "2", "3"] };
+    let slices: usize = if tier == "quick" { 2 } else { 6 };
+    let work: Vec<(&str, usize)> = sizes.iter().flat_map(|b| (0..slices).map(move |s| (*b, s))).collect();
     let exe = crate::explore::self_exe();
-    let res = par_map(&sizes, threads(), |_, bs| -> Result<Value, String> {
-        let d = scratch.dir.join(format!("writer-{bs}"));
+    let res = par_map(&work, threads(), |_, (bs, slice)| -> Result<Value, String> {
+        let d = scratch.dir.join(format!("writer-{bs}-{slice}"));
         let _ = std::fs::create_dir_all(&d);
-        let out = std::process::Command::new(&exe).arg("c20child").arg(&d).arg(bs).arg(tier).env_remove("SNELDB_CONFIG").env("RAYON_NUM_THREADS", "1").output().map_err(|e| format!("spawn: {e}"))?;
+        let out = std::process::Command::new(&exe).arg("c20child").arg(&d).arg(bs).arg(tier).arg(slice.to_string()).arg(slices.to_string()).env_remove("SNELDB_CONFIG").env("RAYON_NUM_THREADS", "1").output().map_err(|e| format!("spawn: {e}"))?;
         let _ = std::fs::remove_dir_all(&d);
         if !out.status.success() {
-            return Err(format!("writer child bs={bs} ended with {:?}: {}", out.status, String::from_utf8_lossy(&out.stderr).chars().take(600).collect::<String>()));
+            return Err(format!("writer child bs={bs} slice={slice} ended with {:?}: {}", out.status, String::from_utf8_lossy(&out.stderr).chars().take(600).collect::<String>()));
         }
         let text = String::from_utf8_lossy(&out.stdout);
         let line = text.lines().last().unwrap_or("");
-        serde_json::from_str(line).map_err(|e| format!("writer child bs={bs}: {e}"))
+        serde_json::from_str(line).map_err(|e| format!("writer child bs={bs} slice={slice}: {e}"))
     });
     let mut failing = Vec::new();
     let (mut cases, mut nontrivial) = (0u64, 0u64);
